@@ -170,7 +170,11 @@ def cacheable_spec(rng):
         spec["nodes"] += [
             {**copy.deepcopy(gate), "name": "sga", "t": "xa", "f": "xb"},
             {**copy.deepcopy(gate), "name": "sgb", "t": "yb", "f": "ya"},
-        ] + [{"k": "fn", "name": nm, "params": [{"n": "sgx"}], "outs": [f"{nm}_out"]} for nm in ("xa", "xb", "ya", "yb")]
+            # ... and a third one with the SAME two targets as the first, branches swapped (for an if/else gate the
+            # order of the targets is their meaning)
+            {**copy.deepcopy(gate), "name": "sgc", "t": "zb", "f": "za"},
+            {**copy.deepcopy(gate), "name": "sgd", "t": "za", "f": "zb"},
+        ] + [{"k": "fn", "name": nm, "params": [{"n": "sgx"}], "outs": [f"{nm}_out"]} for nm in ("xa", "xb", "ya", "yb", "za", "zb")]
         for v in inputs_pool:
             v.setdefault("sgs", rng.randint(0, 1))
             v.setdefault("sgx", "run:sgx")
@@ -362,7 +366,16 @@ def cached_interrupt(ctx, i):
     def fin(decision):
         return ("fin", decision)
 
-    g = Graph([InterruptNode(ask, name="ask", output_name="decision", cache=True), FunctionNode(fin, name="fin", output_name="out")], name="ci")
+    emit = "asked" if rng.random() < 0.5 else None
+
+    def note(draft):
+        return ("noted", draft)
+
+    nodes = [InterruptNode(ask, name="ask", output_name="decision", cache=True, emit=emit), FunctionNode(fin, name="fin", output_name="out")]
+    if emit:
+        # a node that only waits for the interrupt's signal
+        nodes.append(FunctionNode(note, name="note", output_name="noted", wait_for=emit))
+    g = Graph(nodes, name="ci")
     backend = InMemoryCache() if rng.random() < 0.5 else None
     tmp = None
     if backend is None:
@@ -372,7 +385,7 @@ def cached_interrupt(ctx, i):
         backend = DiskCache(tmp)
     cached, plain = AsyncRunner(cache=backend), AsyncRunner()
     history = [{"draft": "d1"}, {"draft": "d1", "decision": "yes"}, {"draft": "d1"}, {"draft": "d2"}, {"draft": "d1"}]
-    case = {"program": "cached interrupt", "handler": "auto-answers" if auto else "pauses", "backend": type(backend).__name__}
+    case = {"program": "cached interrupt" + (" emitting a signal" if emit else ""), "handler": "auto-answers" if auto else "pauses", "backend": type(backend).__name__}
     try:
         for step, inputs in enumerate(history):
             rc = asyncio.run(cached.run(g, dict(inputs)))
@@ -495,6 +508,50 @@ def lru_recency(ctx, i):
             ctx.violation("C09:lru-model", f"LRU history {hist[: step + 1]} (max_size={m}): the entry for {x!r} was evicted (or never stored), yet no invocation happened", {**case, "step": step})
             return
     ctx.case({"lru-recency": m}, True)
+
+
+def permuted_wiring_identity(ctx, i):
+    """ONE cached function behind two nodes whose INPUT wirings are permutations of each other and whose output names
+    are identical (two graphs, one cache): the same values arrive under the same external names, but at different
+    parameters - the entry of one wiring must not be served to the other."""
+    from hypergraph import FunctionNode, Graph, SyncRunner
+
+    rng = ctx.rng
+
+    def f(a, b):
+        return ("f", a, b)
+
+    base = FunctionNode(f, name="f", output_name="o", cache=True)
+    how = rng.choice(["swap", "via-temp", "fresh-names"])
+    if how == "swap":
+        w1, w2 = base, base.with_inputs(a="b", b="a")
+        names = ("a", "b")
+    elif how == "via-temp":
+        w1 = base.with_inputs(a="p", b="q")
+        w2 = base.with_inputs(a="t").with_inputs(b="p").with_inputs(t="q")
+        names = ("p", "q")
+    else:
+        w1 = base.with_inputs(a="p", b="q")
+        w2 = base.with_inputs(a="q", b="p")
+        names = ("p", "q")
+    graphs = [Graph([w1], name="gw"), Graph([w2], name="gw")]
+    backend, tmp = _with_backend(rng)
+    cached, plain = SyncRunner(cache=backend), SyncRunner()
+    order = rng.choice([[0, 1, 0, 1], [1, 0, 1, 0]])
+    case = {"program": f"f(a,b) cached, two wirings ({how}), same output name", "order": order, "backend": type(backend).__name__}
+    try:
+        for step, gi in enumerate(order):
+            inputs = {names[0]: "run:first", names[1]: "run:second"}
+            rc = cached.run(graphs[gi], dict(inputs))
+            ru = plain.run(graphs[gi], dict(inputs))
+            ctx.obs["cached_runs_compared"] += 1
+            ctx.obs["permuted_wiring_runs"] += 1
+            if (rc.status, rc.values) != (ru.status, ru.values):
+                ctx.violation("C09:served-to-different-arguments:permuted-wiring", f"run {step} of wiring {gi} ({how}): cached {rc.values} vs uncached {ru.values}", {**case, "step": step})
+                break
+    finally:
+        _drop_backend(backend, tmp)
+    ctx.case({"permuted-wiring": how, "b": type(backend).__name__}, True)
 
 
 def container_arguments(ctx, i):
@@ -681,5 +738,7 @@ def run(ctx):
             container_arguments(ctx, i)
         elif i % 20 == 2:
             lru_recency(ctx, i)
+        elif i % 20 == 12:
+            permuted_wiring_identity(ctx, i)
         else:
             history(ctx, i, ["mem", "lru", "disk"][i % 3])
